@@ -35,5 +35,11 @@ pub(crate) fn detect_format(input: &mut input::Handle) -> io::Result<Option<Form
 		return Ok(Some(Format::Toml));
 	}
 
-	Ok(None)
+	// A parser trial can take a failure of the input reader for a sign that the
+	// input has some other format. If that happened, we know nothing about the
+	// input's format, and the failure is what the caller needs to hear about.
+	match input.take_source_error() {
+		Some(err) => Err(err),
+		None => Ok(None),
+	}
 }
